@@ -46,6 +46,8 @@ def build(tier, work, builder):
         sl = X.function(src, name, rx)
         T.lower_literals(sl)
         sl.sub("L2:constexpr->const", r"\bconstexpr\b", "const")
+        sl.sub("glue:top-level const of a by-value parameter (CBMC matches declaration and definition literally)",
+               r"(?<=[(,])\s*const (int|double|bool|int32_t|uint32_t|size_t) (\w+)(?=\s*[,)])", r" \1 \2", count=0)
         sl.sub("L9:throw->ghost flag", r"throw XMLWriterError\(verif_lit\(\d+, \"[^\"]*\"\)\);", "VERIF_THROW_VOID;")
         sl.sub("glue:const char* from a temporary->handle", r"const char\* name = loc\.uid\.get_name\(\)\.c_str\(\);", "std::string verif_name_s = loc.uid.get_name(); const char* name = verif_name_s.c_str();")
         sl.sub("L15:auto->explicit", r"const auto id = concat\(", "const std::string id = concat(")
@@ -83,6 +85,27 @@ def build(tier, work, builder):
     out += ["#define LIT_UTF8 900", "#define LIT_ERRCOLOR 901"]
     write(work, "lit_ids.h", "\n".join(out) + "\n")
     slices = fl
+    # the REAL class XMLWriter (xmlwriter.h): its data members are the writer's state, so a member a change adds comes along
+    hs = X.Source("include/utap/xmlwriter.h")
+    cls = X.braced(hs, "class XMLWriter", r"^class XMLWriter\b")
+    cls.sub("L17:std::map<int,int>->verif_intmap", r"std::map<int,\s*int>", "std::verif_intmap")
+    cls.sub("glue:constructor/destructor declarations dropped (the harness owns one static writer)", r"^\s*(virtual\s+)?~?XMLWriter\([^;]*\);[^\n]*\n", "")
+    cls.sub("L4:in-class member initialiser dropped (the harness sets every scalar member to an arbitrary value)",
+            r"^([ \t]+[\w:]+[ \t]+\w+)[ \t]*(\{[^{}\n]*\}|=[^;\n]+);", r"\1;")
+    write(work, "xmlwriter_class.inc", cls.text + "\n")
+    slices = slices + [cls]
+    # scalar data members (other than the libxml2 handle, the document pointer and the self-loop map): arbitrary in every job,
+    # and part of the state the id of a location may depend on
+    memb = [m.group(2) for m in re.finditer(r"^\s*(?:std::)?(int|int32_t|uint32_t|int64_t|size_t|unsigned|unsigned int|long|bool|short)\s+(\w+)\s*;", cls.text, re.M)]
+    if len(memb) > 4:
+        raise X.ExtractionBroken("class XMLWriter: more than 4 scalar data members (harness capacity)")
+    mh = ["/* GENERATED: the scalar data members of the real class XMLWriter */", f"#define XW_NMEMB {len(memb)}"]
+    write(work, "xw_members.h", "\n".join(mh) + "\n")
+    mi = ["/* GENERATED */", "extern \"C\" void w20_member_set(int i, int v) { (void)v; switch (i) {"]
+    mi += [f"    case {i}: W.{m} = v; break;" for i, m in enumerate(memb)] + ["    default: break; } }"]
+    mi += ["extern \"C\" int w20_member_get(int i) { switch (i) {"]
+    mi += [f"    case {i}: return (int)W.{m};" for i, m in enumerate(memb)] + ["    default: return 0; } }"]
+    write(work, "xw_members.inc", "\n".join(mi) + "\n")
     obj = builder.cc(os.path.join(CDIR, "xw20.cpp"), includes=[work, os.path.join(X.REPO, "include")], cpp=True)
     kf = ["KF1_CLASS(e)=((e).prob != 0 && !((e).pf & 1))", "KF2_CLASS(e)=((e).nsel >= 2)", "KF3_CLASS(e)=(!(e).control)", "KF4_CLASS(e)=((e).src < 0 || (e).dst < 0)"]
     hobj = builder.cc(os.path.join(CDIR, "h_c20.c"), includes=[work], defines=["EXCLUDE_KF"] + kf)
